@@ -182,7 +182,8 @@ def rle(kinds):
     return [(k, n) for k, n in out]
 
 
-def make_alignment(rng, cols, c0, c1, style="M", skip=None, soft=(0, 0), hard=(0, 0), split_prob=0.0, trim=True):
+def make_alignment(rng, cols, c0, c1, style="M", skip=None, soft=(0, 0), hard=(0, 0), split_prob=0.0, trim=True,
+                   ins_after_skip=False):
     """alignment of hap columns [c0, c1) minus the reference skip `skip` = (a, b) (reference interval).
     With trim=False the alignment (and each block next to the skip) may begin / end with insertion or deletion columns:
     the inserted bases are then the first / last aligned bases, followed by the read end, a clip or the skip.
@@ -198,7 +199,9 @@ def make_alignment(rng, cols, c0, c1, style="M", skip=None, soft=(0, 0), hard=(0
 
         def removed(i):
             kind, rpos = cols[i][0], cols[i][1]
-            return (a < rpos <= b) if kind == "I" else (a <= rpos < b)
+            # inserted bases standing directly in front of the first base after the skip: skipped along, or (with
+            # ins_after_skip) kept as an insertion operation that follows the N directly
+            return (a < rpos <= b and not (ins_after_skip and rpos == b)) if kind == "I" else (a <= rpos < b)
         left = [i for i in keep if not removed(i) and cols[i][1] < a + (1 if cols[i][0] == "I" else 0)]
         right = [i for i in keep if not removed(i) and i not in set(left)]
         if not left or not right:
